@@ -2141,6 +2141,7 @@ JANET_CORE_FN(os_readlink,
     (void) argv;
     janet_panic("not supported on Windows");
 #else
+    janet_sandbox_assert(JANET_SANDBOX_FS_READ);
     static char buffer[PATH_MAX];
     const char *path = janet_getcstring(argv, 0);
     ssize_t len = readlink(path, buffer, sizeof buffer);
